@@ -42,3 +42,56 @@ Print Assumptions c17_from_err.
 Theorem c17_from_err_nil_iff : forall e, unfe e = None <-> e = None.
 Proof. exact unfe_nil_iff. Qed.
 Print Assumptions c17_from_err_nil_iff.
+
+(* any callback behaviour (stateful, any error class at any position): Decode makes exactly the
+   specification's calls cut at the first callback error that contains a Notification, and the
+   error tree it returns has exactly these leaves, in this order: every error the callbacks
+   returned up to that point, the structural findings (Notification (3,1) for a repeated MP
+   attribute; treat-as-withdraw with (3,0) for an attribute overrunning the block; treat-as-withdraw
+   with Missing Well-known Attribute (3,3,[code]) when routes are announced without ORIGIN/AS_PATH) *)
+From Verif Require Import UpdateErrProofs.
+Theorem c17_errors_exact : forall sc b,
+  wf_bytes b = true ->
+  exists e, update_decode sc b = Ok (spec_calls_script sc b, e)
+            /\ oleaves e = flat_map leaves (spec_err_events sc b).
+Proof. exact decode_errors_exact. Qed.
+Print Assumptions c17_errors_exact.
+
+(* "contains every error the callbacks returned up to the point decoding stopped", in order *)
+Theorem c17_contains_callback_errors : forall sc b,
+  subseq_of (cb_errors sc 0 (length (spec_calls_script sc b))) (spec_err_events sc b).
+Proof. exact callback_errors_contained. Qed.
+Print Assumptions c17_contains_callback_errors.
+
+(* the notification UpdateNotificationFromErr derives from Decode's result is the first-by-severity
+   choice over exactly that event list *)
+Theorem c17_notification_of_result : forall sc b calls x,
+  wf_bytes b = true -> update_decode sc b = Ok (calls, Some x) ->
+  unfe (Some x) = spec_unfe (Some (EJoin (spec_err_events sc b))).
+Proof. exact decode_notification. Qed.
+Print Assumptions c17_notification_of_result.
+
+(* the structural classes the property names are present whenever decoding was not stopped earlier *)
+Theorem c17_structural_classes : forall sc b W A Nl,
+  spec_sections b = Some (W, A, Nl) -> has_notif_o (sc O) = false ->
+  snd (fst (attr_cb_events sc 1 (length (fst (attr_items A))))) = false ->
+  match snd (attr_items A) with
+  | EndDupMP => In (ENotif (mkNotif 3 1 [])) (spec_err_events sc b)
+  | EndOverrun c => In (ETaw c (Some (mkNotif 3 0 []))) (spec_err_events sc b)
+  | EndClean => True
+  end
+  /\ (snd (attr_items A) <> EndDupMP -> missing_attrs (fst (attr_items A)) Nl = true ->
+      let m := if existsb (N.eqb 1) (map item_code (fst (attr_items A))) then 2 else 1 in
+      In (ETaw m (Some (mkNotif 3 3 [m]))) (spec_err_events sc b)).
+Proof. exact decode_event_classes. Qed.
+Print Assumptions c17_structural_classes.
+
+(* non-vacuity: NLRI 10.0.0.0/8 with only ORIGIN present, the ORIGIN callback returns an
+   attribute-discard error, the NLRI callback a treat-as-withdraw error *)
+Example c17_events_example :
+  let b := [0;0; 0;4; 64;1;1;0; 8;10] in
+  let sc := fun k => match k with 1%nat => Some (EDiscard 1 None) | 2%nat => Some (ETaw 0 None) | _ => None end in
+  spec_err_events sc b = [EDiscard 1 None; ETaw 2 (Some (mkNotif 3 3 [2])); ETaw 0 None]
+  /\ update_decode sc b = Ok ([CWr []; CPa 1 64 [0]; CNl [8; 10]],
+                             Some (EJoin [EJoin [EJoin [EJoin [EDiscard 1 None]; ETaw 2 (Some (mkNotif 3 3 [2]))]]; ETaw 0 None])).
+Proof. vm_compute. split; reflexivity. Qed.
